@@ -27,7 +27,11 @@ def _layer_defs(mods: tuple, mode: str, idx: int):
     """One layer definition over the module tuple."""
     if mode == "names":
         return ("names", tuple(mods))
-    rx = "(" + "|".join(re.escape(m) for m in mods) + ")$"
+    if idx % 2 and len(mods) > 1:
+        # top-level alternation, every alternative anchored on its own (re.match anchors each at the start)
+        rx = "|".join(re.escape(m) + "$" for m in mods)
+    else:
+        rx = "(" + "|".join(re.escape(m) for m in mods) + ")$"
     return ("regex", (rx,))
 
 
